@@ -88,6 +88,7 @@ enum Q {
     Succ(usize),
     Nth(bool, bool, usize, usize), // zero?, back?, consumed, n
     BitNth(bool, usize, usize),    // back?, consumed, n
+    NthJ(bool, usize, usize, usize), // zero?, taken from the back first, consumed from the front, n
 }
 
 fn pp(p: &(usize, usize)) -> String {
@@ -178,6 +179,22 @@ where
             }
             nth_probe_fresh(|| v.zero_iter(), back, k, n, pp)
         }
+        Q::NthJ(z, j, k, n) => {
+            if !caps.walk_ones || (z && (!caps.zero_queries || !caps.walk_bits)) {
+                return None;
+            }
+            if z {
+                if !<<T as SelectZero<'a>>::ZeroIter as MaybeBack>::BACK {
+                    return None;
+                }
+                nth_probe_back_first(|| v.zero_iter(), j, k, n, pp)
+            } else {
+                if !<<T as Select<'a>>::OneIter as MaybeBack>::BACK {
+                    return None;
+                }
+                nth_probe_back_first(|| v.one_iter(), j, k, n, pp)
+            }
+        }
         Q::BitNth(back, k, n) => {
             if !caps.zero_queries || !caps.walk_bits {
                 return None;
@@ -210,6 +227,23 @@ fn nth_probe_fresh<I: MaybeBack + ExactSizeIterator, M: FnOnce() -> I, F: Fn(&I:
     Some(mk(r, |x| format!("({}, {}, {})", opt(&x.0, &f), opt(&x.1, &f), x.2)))
 }
 
+// j x next_back(), k x next(), then nth(n), next(), len(): the remainder nth has to respect is the iterator's own
+fn nth_probe_back_first<I: MaybeBack + ExactSizeIterator, M: FnOnce() -> I, F: Fn(&I::Item) -> String>(make: M, j: usize, k: usize, n: usize, f: F) -> Option<Probe> {
+    let r = catch(move || {
+        let mut it = make();
+        for _ in 0..j {
+            it.next_back_opt().unwrap();
+        }
+        for _ in 0..k {
+            it.next();
+        }
+        let a1 = it.nth(n);
+        let a2 = it.next();
+        (a1, a2, it.len())
+    });
+    Some(mk(r, |x| format!("({}, {}, {})", opt(&x.0, &f), opt(&x.1, &f), x.2)))
+}
+
 fn q_head(q: Q) -> (String, String) {
     match q {
         Q::Counts => ("QCounts".into(), "(len, count_ones, count_zeros)".into()),
@@ -222,6 +256,8 @@ fn q_head(q: Q) -> (String, String) {
         Q::Succ(i) => (format!("QSucc {}", i), format!("successor({}).next()", i)),
         Q::Nth(z, back, k, n) => (format!("QNth {} {} {} {}", b(z), b(back), k, n),
             format!("{}(); {} x next(); {}({}); {}(); len()", if z { "zero_iter" } else { "one_iter" }, k, if back { "nth_back" } else { "nth" }, n, if back { "next_back" } else { "next" })),
+        Q::NthJ(z, j, k, n) => (format!("QNthJ {} {} {} {}", b(z), j, k, n),
+            format!("{}(); {} x next_back(); {} x next(); nth({}); next(); len()", if z { "zero_iter" } else { "one_iter" }, j, k, n)),
         Q::BitNth(back, k, n) => (format!("QBitNth {} {} {}", b(back), k, n),
             format!("iter(); {} x next(); {}({}); {}(); len()", k, if back { "nth_back" } else { "nth" }, n, if back { "next_back" } else { "next" })),
     }
@@ -361,6 +397,23 @@ fn seq_queries(len: usize, ones: usize, zeros: usize, boundaries: &[usize], mult
             for n in sorted([extremes(ones), extremes(ones.saturating_sub(k))].concat()) {
                 qs.push(Q::Nth(false, false, k, n));
                 qs.push(Q::Nth(false, true, k, n));
+            }
+        }
+    }
+    // after j items were taken from the BACK: nth(n) around the new remainder (n = rem - 1, rem, ..., rem + j)
+    if ones <= WALK_LIMIT {
+        for (j, k) in [(1usize, 0usize), (2, 1), (ones / 2, 0), (ones.saturating_sub(1), 0), (ones, 0), (ones + 1, 0)] {
+            let rem = ones.saturating_sub(j).saturating_sub(k);
+            for n in sorted(vec![rem.saturating_sub(1), rem, rem + 1, rem + j.saturating_sub(1), rem + j, ones, MAXU]) {
+                qs.push(Q::NthJ(false, j, k, n));
+            }
+        }
+    }
+    if len <= WALK_LIMIT && !multiset {
+        for (j, k) in [(1usize, 0usize), (2, 1), (zeros / 2, 0), (zeros, 0)] {
+            let rem = zeros.saturating_sub(j).saturating_sub(k);
+            for n in sorted(vec![rem.saturating_sub(1), rem, rem + 1, rem + j.saturating_sub(1), rem + j, MAXU]) {
+                qs.push(Q::NthJ(true, j, k, n));
             }
         }
     }
